@@ -338,3 +338,14 @@ Fixpoint deserialize (pv : Z) (t : cqltype) (bs : list Z) {struct t} : option va
 
 Definition from_binary (pv : Z) (t : cqltype) (bs : list Z) : option value :=
   wrap_from (empty_ok t) (deserialize pv t) bs.
+
+(* ------------------------------------------------------------------ reading a decoded map back (util.OrderedMapSerializedKey)
+   The decoded map keeps every key's wire bytes; m[key], `key in m` and therefore items()/values()/dict(m) re-serialize the
+   key with cass_key_type.serialize(key, v) and look the bytes up.  MapType.deserialize_safe passes v = inner_proto
+   (repo fix f4644eb; before it the outer protocol version was passed). *)
+Definition key_lookup_bytes (pv : Z) (kt : cqltype) (k : value) : option (list Z) := serialize (inner pv) kt k.
+Definition key_lookup_bytes_outer (pv : Z) (kt : cqltype) (k : value) : option (list Z) := serialize pv kt k.
+
+(* util.Date._from_timetuple (SimpleDateType.serialize of a datetime.date / datetime.datetime / 'yyyy-mm-dd'):
+   days_from_epoch = calendar.timegm(t) // Date.DAY   (floor, also before 1970) *)
+Definition date_days_of_seconds (secs : Z) : Z := secs / 86400.
